@@ -41,6 +41,48 @@ def affine(facts, f, defs, op, depth=0):
     return ("?", 0)
 
 
+def c14_4(facts, res, rule="C14-4"):
+    """Affine index expressions of the three DocumentOrder updates and of get()."""
+    # ---- C14-4 affine index
+    st4 = res.rule(rule, instances=0)
+    want = {"insert_after": ("insert", 0), "insert_before": ("insert", -1), "remove": ("remove", -1)}
+    for name, (vop, off) in want.items():
+        f = facts.fn("xml_info::DocumentOrder::" + name)
+        defs = e1.def_sites(facts, f)
+        st4["instances"] += 1
+        vc = c12.calls(facts, f, lambda n, v=vop: n == "std::vec::Vec::<T, A>::" + v)
+        ok = len(vc) == 1
+        why = []
+        if ok:
+            bi, t = vc[0]
+            a = affine(facts, f, defs, t["args"][1])
+            if a != ("call:get", off):
+                ok = False
+                why.append("index is %s%+d, expected get(id)%+d" % (a[0], a[1], off))
+            if not e1.guarded_positive(facts, f, bi, t["args"][1]) and not _guard_on_get(facts, f, defs, bi):
+                ok = False
+                why.append("not guarded by get(id) > 0")
+        else:
+            why.append("expected exactly one Vec::%s" % vop)
+        res.oblige(1, ok)
+        res.sample({"rule": rule, "fn": f["path"], "index": "get(id)%+d" % off, "verdict": "ok" if ok else why})
+        if not ok:
+            res.add(Finding(rule, name, "%s: %s" % (f["path"], "; ".join(why)), f["file"], f["line"], {}))
+    # get = position + 1
+    f = facts.fn("xml_info::DocumentOrder::get")
+    clo = [x for x in facts.fns.values() if x.get("parent") == f["path"]]
+    okg = False
+    for c in clo:
+        for b in facts.blocks(c):
+            t = b["term"]
+            if t["k"] == "Assert" and t["assert"] == "Overflow(Add)" and e1.is_const(t["ovf_ops"][1], "1"):
+                okg = True
+    st4["instances"] += 1
+    res.oblige(1, okg)
+    if not okg:
+        res.add(Finding(rule, "get", "DocumentOrder::get is not `position + 1`", f["file"], f["line"], {}))
+
+
 def run(facts, tier):
     res = Result("C14")
     res.explanation = (
@@ -126,44 +168,7 @@ def run(facts, tier):
                             "document order" % p, fn["file"], e.get("line"), {}))
     if st3["instances"] < 1:
         raise BrokenCheck("C14-3: no caller of init_order_recursive found")
-    # ---- C14-4 affine index
-    st4 = res.rule("C14-4", instances=0)
-    want = {"insert_after": ("insert", 0), "insert_before": ("insert", -1), "remove": ("remove", -1)}
-    for name, (vop, off) in want.items():
-        f = facts.fn("xml_info::DocumentOrder::" + name)
-        defs = e1.def_sites(facts, f)
-        st4["instances"] += 1
-        vc = c12.calls(facts, f, lambda n, v=vop: n == "std::vec::Vec::<T, A>::" + v)
-        ok = len(vc) == 1
-        why = []
-        if ok:
-            bi, t = vc[0]
-            a = affine(facts, f, defs, t["args"][1])
-            if a != ("call:get", off):
-                ok = False
-                why.append("index is %s%+d, expected get(id)%+d" % (a[0], a[1], off))
-            if not e1.guarded_positive(facts, f, bi, t["args"][1]) and not _guard_on_get(facts, f, defs, bi):
-                ok = False
-                why.append("not guarded by get(id) > 0")
-        else:
-            why.append("expected exactly one Vec::%s" % vop)
-        res.oblige(1, ok)
-        res.sample({"rule": "C14-4", "fn": f["path"], "index": "get(id)%+d" % off, "verdict": "ok" if ok else why})
-        if not ok:
-            res.add(Finding("C14-4", name, "%s: %s" % (f["path"], "; ".join(why)), f["file"], f["line"], {}))
-    # get = position + 1
-    f = facts.fn("xml_info::DocumentOrder::get")
-    clo = [x for x in facts.fns.values() if x.get("parent") == f["path"]]
-    okg = False
-    for c in clo:
-        for b in facts.blocks(c):
-            t = b["term"]
-            if t["k"] == "Assert" and t["assert"] == "Overflow(Add)" and e1.is_const(t["ovf_ops"][1], "1"):
-                okg = True
-    st4["instances"] += 1
-    res.oblige(1, okg)
-    if not okg:
-        res.add(Finding("C14-4", "get", "DocumentOrder::get is not `position + 1`", f["file"], f["line"], {}))
+    c14_4(facts, res)
     # ---- C14-5 initial numbering order in XmlElement::init_order_recursive
     st5 = res.rule("C14-5", instances=1)
     f = facts.fn("xml_info::<XmlElement as HasContext>::init_order_recursive")
